@@ -356,7 +356,7 @@ def oracle(b, p, line, nions, rtol=1e-9):
                     NAMES[r["out"]], sorted(A), sorted(exact))
             same_ops = len(exact) >= 2 and all(n[k] == 1 and p1[k] in (0.0, hi[k]) for k in exact) and \
                 len(set((cs[k], abs(d[k])) for k in exact)) == 1
-            if len(r["cells"]) <= 1 and same_ops and A != exact:
+            if len(r["cells"]) <= 1 and same_ops and not exact <= A:
                 # one cell per tied axis, start on its planes, same cell size and |d|: the tied wall distances are computed by
                 # the same operations on the same doubles, so a tie that is exact must be seen as a tie
                 return "exit_is_geometric: left through %s (axes %s) but the straight line leaves exactly through axes %s" % (
